@@ -131,6 +131,50 @@ def replacement_table(ctx: Ctx, cname: str):
                 ast.copy_location(c, c0)
                 ast.fix_missing_locations(c)
                 merges.append(c)
+    # the same selection written with integer positions into the merged population:
+    #   A.merge(B)[concatenate((flatnonzero(M1), flatnonzero(M2) + A.size))]   ==   A[M1].merge(B[M2])
+    def resolve(e, hops=0):
+        while isinstance(e, ast.Name) and len(d.get(e.id, [])) == 1 and not isinstance(d[e.id][0], ast.AugAssign) and hops < 4:
+            e = d[e.id][0]
+            hops += 1
+        return e
+
+    def positions_of(e):
+        """mask M such that e == positions where M is true, else None"""
+        e = resolve(e)
+        if isinstance(e, ast.Call) and norm(e.func) in ("np.flatnonzero", "numpy.flatnonzero") and len(e.args) == 1:
+            return e.args[0]
+        if isinstance(e, ast.Subscript) and isinstance(e.slice, ast.Constant) and e.slice.value == 0 and isinstance(e.value, ast.Call) and norm(e.value.func) in ("np.where", "np.nonzero") and len(e.value.args) == 1:
+            return e.value.args[0]
+        return None
+
+    for sb in body_walk(r.node):
+        if not (isinstance(sb, ast.Subscript) and isinstance(resolve(sb.value), ast.Call)):
+            continue
+        mg = resolve(sb.value)
+        if not (isinstance(mg.func, ast.Attribute) and mg.func.attr == "merge" and len(mg.args) == 1):
+            continue
+        idx = resolve(sb.slice)
+        parts = None
+        if isinstance(idx, ast.Call) and norm(idx.func) in ("np.concatenate", "np.hstack") and len(idx.args) == 1 and isinstance(idx.args[0], (ast.Tuple, ast.List)) and len(idx.args[0].elts) == 2:
+            parts = idx.args[0].elts
+        elif isinstance(idx, ast.Call) and norm(idx.func) == "np.append" and len(idx.args) == 2:
+            parts = idx.args
+        if parts is None:
+            continue
+        a_pop, b_pop = mg.func.value, mg.args[0]
+        m1 = positions_of(parts[0])
+        p2 = resolve(parts[1])
+        m2 = None
+        if isinstance(p2, ast.BinOp) and isinstance(p2.op, ast.Add):
+            for x, y in ((p2.left, p2.right), (p2.right, p2.left)):
+                if positions_of(x) is not None and canon(y, d) in (f"{norm(a_pop)}.size", f"len({norm(a_pop)}.fitnesses)", f"len({norm(a_pop)}.genomes)", f"{norm(a_pop)}.genomes.shape[0]"):
+                    m2 = positions_of(x)
+        if m1 is not None and m2 is not None:
+            c = ast.Call(func=ast.Attribute(value=ast.Subscript(value=a_pop, slice=m1, ctx=ast.Load()), attr="merge", ctx=ast.Load()), args=[ast.Subscript(value=b_pop, slice=m2, ctx=ast.Load())], keywords=[])
+            ast.copy_location(c, sb)
+            ast.fix_missing_locations(c)
+            merges.append(c)
     half = [c for c in body_walk(r.node) if isinstance(c, ast.Call) and isinstance(c.func, ast.Attribute) and c.func.attr == "merge" and c.args and (isinstance(c.func.value, ast.Subscript) != isinstance(c.args[0], ast.Subscript)) and isinstance(c.func.value, (ast.Subscript, ast.Name)) and isinstance(c.args[0], (ast.Subscript, ast.Name))]
     if not merges and half:
         c = half[0]
